@@ -73,6 +73,19 @@ def scp_case(value, lazy=False, fail_after=None, reuse=False):
     ts = TSS[ts_i]
     seen = []
 
+    def status_obj(code, k):
+        # the forms in which an application hands a pending status over: classified for C-FIND, a plain code, a Status
+        # built from the bare code (no command), the library's own constant
+        form = (k + msg_id + len(matches)) % 4
+        if form == 1:
+            return code
+        if form == 2:
+            return statuses.Status(code)
+        if form == 3:
+            return {0xFF00: statuses.C_FIND_PENDING, 0xFF01: statuses.C_FIND_PENDING_WARNING}.get(
+                code, statuses.Status(code, dimsemessages.CFindRSPMessage))
+        return statuses.Status(code, dimsemessages.CFindRSPMessage)
+
     def on_find(ctx, ds):
         seen.append((tuple(ctx), ds))
 
@@ -81,10 +94,10 @@ def scp_case(value, lazy=False, fail_after=None, reuse=False):
                 for m, code in fills:
                     for kw, v in m.items():
                         setattr(ds, kw, v)
-                    yield ds, statuses.Status(code, dimsemessages.CFindRSPMessage)
+                    yield ds, status_obj(code, len(seen))
                 return
             for k, (m, code) in enumerate(matches):
-                yield (to_file_ds(m) if (k + msg_id) % 3 == 0 else to_ds(m)), statuses.Status(code, dimsemessages.CFindRSPMessage)
+                yield (to_file_ds(m) if (k + msg_id) % 3 == 0 else to_ds(m)), status_obj(code, k)
             if fail_after is not None:
                 from pynetdicom2 import exceptions
                 raise exceptions.EventHandlingError('handler fails after %d matches' % len(matches))
